@@ -23,9 +23,9 @@ import treeenc
 import validenc
 import vlib
 import yanggen
-from lyxlib import PARSE_ONLY, PARSE_STRICT, PARSE_NO_STATE, VAL_NO_STATE, NEWPATH_UPDATE
+from lyxlib import PARSE_ONLY, PARSE_STRICT, PARSE_NO_STATE, VAL_NO_STATE, VAL_MULTI, NEWPATH_UPDATE
 from props.comps import Comp
-from props.oracles import Oracle, crashed, creation_items, gen_case, node_path, walk_paths
+from props.oracles import Oracle, crashed, creation_items, gen_case, node_path, quote_pred, walk_paths
 from vlib import hexs
 
 APPTAG = {"nomandchoice": "missing-choice", "nomin": "too-few-elements", "nomax": "too-many-elements",
@@ -156,6 +156,112 @@ def unique_family(rng):
                 ch.append(Y.DNode(cont, children=pc))
         ents.append(Y.DNode(lst, children=ch))
     return m, [Y.DNode(m.nodes[0], children=ents + [Y.DNode(m.nodes[0].children[1], "z")])]
+
+
+def add_when_leaves(rng, m):
+    """(oracle only) a trailing leaf with a when that is always true at the end of some sibling levels: nodes with a when
+    go through the unres set of validation; they come AFTER the nodes that may be invalid"""
+    k = [0]
+
+    def leaf():
+        k[0] += 1
+        return yanggen.SLeaf("wz%d" % k[0], yanggen.TString(), when=("true()", None))
+    for n in m.all_nodes():
+        if n.kind in ("container", "list") and validenc._cfg(n) and rng.random() < 0.5:
+            x = leaf()
+            x.parent = n
+            x.module = m
+            n.children.append(x)
+    x = leaf()
+    x.module = m
+    m.nodes.append(x)
+
+
+def lexical_variant(rng, t, v):
+    """another lexical form of the same value (RFC 7950 9.2.1 / 9.3.1), or v"""
+    if isinstance(t, yanggen.TInt) and v.lstrip("-").isdigit():
+        if v.startswith("-"):
+            return "-0" + v[1:]
+        return rng.choice(["+" + v, "0" + v, "+0" + v])
+    if isinstance(t, yanggen.TDec64) and "." in v:
+        return v + "0" if not v.startswith("-") else v + "00"
+    return v
+
+
+def history_case(rng, m, ig, f):
+    """a validated valid tree to which ONE node is added through lyd_new_term / lyd_new_list2 (no look for an existing
+    instance): a second instance of a leaf, an equal leaf-list value (also in another lexical form), a list entry with
+    the keys of an existing one - or a fresh value / entry as control; then lyd_validate_all and lyd_validate_module. The
+    verdict must be the one of the final content parsed in one step (expectation: the Python reading of the RFC)."""
+    sites = []
+    for n, parents in walk_paths(f):
+        s = n.schema
+        if any(p.schema.kind == "list" and not p.schema.keys for p in parents + [n]):
+            continue
+        if s.kind == "leaf-list" or (s.kind == "leaf" and not s.is_key) or (s.kind == "list" and s.keys):
+            sites.append((n, parents))
+    if not sites:
+        return None
+    n, parents = rng.choice(sites)
+    s = n.schema
+    try:
+        ppath = node_path(parents[-1], parents[:-1]) if parents else None
+    except Exception:
+        return None
+    if ppath and "'" in ppath and '"' in ppath:
+        return None
+    sibs = parents[-1].children if parents else f
+    fresh = rng.random() < 0.25
+    g = clone_forest(f)
+    # the same position in the clone
+    gs = g
+    for p in parents:
+        gs = gs[[id(x) for x in (sibs_of(f, parents, p))].index(id(p))].children
+    if s.kind == "list":
+        keys = [c for c in n.children if c.schema.name in s.keys]
+        vals = [(c.schema, c.value) for c in keys]
+        if fresh:
+            new = _fresh_instances(rng, ig, s, [d for d in sibs if d.schema is s], 1)
+            if not new:
+                return None
+            vals = [(c.schema, c.value) for c in new[0].children if c.schema.name in s.keys]
+        if any("'" in v and '"' in v for _, v in vals):
+            return None
+        pred = "".join("[%s=%s]" % (ks.name, quote_pred(lexical_variant(rng, ks.type, v))) for ks, v in vals)
+        cmd = ("newlist", None, ppath, s.name, pred)
+        added = yanggen.DNode(s, children=[yanggen.DNode(ks, v) for ks, v in vals])
+    else:
+        v = n.value
+        if fresh or (s.kind == "leaf" and rng.random() < 0.5):
+            v = s.type.valid(rng)
+        if isinstance(s.type, yanggen.TEmpty):
+            v = ""
+        cmd = ("newterm", None, ppath, s.name, lexical_variant(rng, s.type, v))
+        added = yanggen.DNode(s, v)
+    gs.append(added)
+    exp = validenc.py_violations(m, g)
+    if not exp <= {"dup"} and not exp <= {"nomax"} and exp:
+        return None
+    if exp == {"dup", "nomax"}:
+        return None
+    cls = "0" if not exp else sorted(exp)[0]
+    if cls == "0" and s.kind == "list":
+        return None                 # a fresh entry may lack mandatory content: not a control
+    x = yanggen.to_xml(f)
+    cmds = [("mod", hexs(m.yang()), CTX_NO_YANGLIBRARY)]
+    routes = []
+    for slot, how in (("t6", ()), ("t7", ("m",))):
+        cmds.append(("parse", slot, "x", PARSE_STRICT, 0, hexs(x)))
+        cmds.append((cmd[0], slot, hexs(cmd[2]) if cmd[2] else "-", cmd[3], hexs(cmd[4])))
+        cmds.append(("val", slot, rng.choice([0, VAL_MULTI])) + how)
+        routes.append("H3")
+    return vline(["#x " + cls, "#r " + ",".join(routes)], cmds)
+
+
+def sibs_of(f, parents, p):
+    """the sibling list (of the ORIGINAL forest) in which parent chain element p lives"""
+    i = [id(x) for x in parents].index(id(p))
+    return parents[i - 1].children if i else f
 
 
 def valid_instance(rng, m, ig):
@@ -750,6 +856,10 @@ def extra_case(ymod, x, j, cls):
             ("parse", "t3", "x", PARSE_ONLY | PARSE_STRICT, 0, hexs(x)), ("val", "t3", 0, "m"),
             ("parse", "t4", "j", PARSE_ONLY | PARSE_STRICT, 0, hexs(j)), ("val", "t4", 0, "m")]
     routes = ["v", "v", "pv", "pv"]
+    cmds += [("parse", "t10", "j", PARSE_STRICT, VAL_MULTI, hexs(j)),
+             ("parse", "t11", "x", PARSE_ONLY | PARSE_STRICT, 0, hexs(x)), ("val", "t11", VAL_MULTI, "m"),
+             ("parse", "t12", "j", PARSE_ONLY | PARSE_STRICT, 0, hexs(j)), ("val", "t12", VAL_MULTI)]
+    routes += ["Av", "Apv", "Apv"]
     if cls != "unknown":
         cmds += [("parse", "t8", "x", PARSE_ONLY | PARSE_STRICT, 0, hexs(x)), ("rt", "t8", "t9", "b", 0, PARSE_STRICT, 0)]
         routes.append("L2")
@@ -864,7 +974,10 @@ class ValidMut(Oracle):
     RFC 7950 section 15 app-tag, message class) expected by construction, on every route: XML / JSON, canonical /
     shuffled sibling order, parse with validation / parse-only + lyd_validate_module / lyd_new_path + validation / (for
     the deleting mutations) lyd_free_tree on the validated valid instance + validation; plus leaf-list values whose node
-    hashes collide below a parent with a children hash table."""
+    hashes collide below a parent with a children hash table; every case also with LYD_VALIDATE_MULTI_ERROR on each
+    entry point (accept / reject must not change; half of the modules have trailing leaves with a when); histories: a
+    node added by lyd_new_term / lyd_new_list2 to the validated valid tree (duplicate, also in another lexical form, or
+    a fresh value as control), then lyd_validate_all / lyd_validate_module."""
     name = "validmut"
     driver = "t_valid"
 
@@ -873,9 +986,15 @@ class ValidMut(Oracle):
         muts = MODEL_MUTS + PARSER_MUTS
         for i in range(self.n(tier, 800, 12000, scale)):
             m, ig = valid_case(rng, userord=(i % 3 == 0), state=(i % 4 != 1))
+            if i % 2:
+                add_when_leaves(rng, m)
             f = valid_instance(rng, m, ig)
             if f is None:
                 continue
+            for _ in range(2):
+                h = history_case(rng, m, ig, f)
+                if h:
+                    L.append(h)
             todo = [(None, f)]
             order = list(muts)
             rng.shuffle(order)
@@ -924,6 +1043,13 @@ class ValidMut(Oracle):
             routes.append("v")
             cmds += [("parse", "t4", "j", PARSE_ONLY | PARSE_STRICT, 0, hexs(js)), ("val", "t4", 0, "m")]
             routes.append("pv")
+        # LYD_VALIDATE_MULTI_ERROR must not change accept / reject, on any entry point
+        cmds.append(("parse", "t10", "x", PARSE_STRICT, VAL_MULTI, hexs(xs)))
+        routes.append("Av")
+        cmds += [("parse", "t11", "x", PARSE_ONLY | PARSE_STRICT, 0, hexs(x)), ("val", "t11", VAL_MULTI, "m")]
+        routes.append("Apv")
+        cmds += [("parse", "t12", "x", PARSE_ONLY | PARSE_STRICT, 0, hexs(xs)), ("val", "t12", VAL_MULTI)]
+        routes.append("Apv")
         if cls not in ("type", "nokey"):
             # LYB as the source format: the parse-only tree printed as LYB, parsed with validation
             cmds += [("parse", "t8", "x", PARSE_ONLY | PARSE_STRICT, 0, hexs(x)), ("rt", "t8", "t9", "b", 0, PARSE_STRICT, 0)]
@@ -967,6 +1093,9 @@ class ValidMut(Oracle):
         exp0 = exp
         for rt in routes:
             exp = exp0
+            accept_only = False
+            if rt[0] == "A":
+                accept_only, rt = True, rt[1:]
             if rt[0] in "VP":
                 exp, rt = rt[1:], ("v" if rt[0] == "V" else "pv")
             if rt == "v":
@@ -987,6 +1116,13 @@ class ValidMut(Oracle):
                 if got == "other!rc=9/vecode=0" and exp == "0":
                     return ("lyb-when-not-evaluated", "LYB parsed with validation: LY_EINCOMPLETE without a message, a must reads a "
                                                       "node whose when was never evaluated")
+            elif rt[0] == "H":
+                # history: n commands, the last one is the validation; a step that cannot be made is not judged
+                n = int(rt[1:])
+                got = vclass(r[k + n - 1]) if all(x == "0" for x in r[k:k + n - 1]) else exp
+                if got in ("dup", "nomax") and exp in ("dup", "nomax"):
+                    got = exp           # (with LYD_VALIDATE_MULTI_ERROR the last logged error is reported)
+                k += n
             elif rt[0] == "R":
                 # n commands: all but the last answer 0, the class of the last one is judged
                 n = int(rt[1:])
@@ -1013,6 +1149,8 @@ class ValidMut(Oracle):
                 k += n + 1
                 if got.split("!")[0] == "other":
                     got = exp           # lyd_new_path refuses some invalid constructions with its own errors
+            if accept_only and (got == "0") == (exp == "0") and not got.startswith("other"):
+                got = exp               # multi-error mode: the last logged error may be another one of the same instance
             if got != exp:
                 if got == "noinst!rc=5/vecode=9" and exp == "noinst":
                     return ("instid-notfound-rc", "instance-identifier without target: return code LY_ENOTFOUND instead of LY_EVALID")
